@@ -22,6 +22,7 @@ namespace Holpy.C12
     11 is visible, item 30 never parses. -/
 def exWorld : World :=
   { parse := fun i ctx => if i = 30 then .err else if i = 21 then (if 11 ∈ ctx then .ok else .err) else .ok
+    extend := fun _ _ => true
     lazyOf := fun n => if n = 2 then some 7 else none
     body := fun m => if m = 7 then [.load 3] else [] }
 
@@ -58,7 +59,7 @@ example :
     ∧ specLoad exWorld (initState [1, 2, 3] exFiles).lib 5 3 .none = .ok [10, 11, 20, 21] :=
   ⟨by decide, by decide, by rfl⟩
 
-/-- FULL statement for a healthy library (no item makes the loader raise, the import graph passes the cycle
+/-- FULL statement for a healthy library (no item makes the parser raise, no two items clash when their extensions are combined, the import graph passes the cycle
     check, import orders exist, modules only load theories of the library), every theory `n` of the library
     and every limit: after ANY content-preserving history, the outcome of `load_theory(n, limit)` IS the
     specification — it returns normally exactly when the specification does, `theory.thy` is then the
@@ -102,6 +103,7 @@ example : Healthy exWorld (initState [1, 2, 3] exFiles).lib where
     · split
       · split <;> (intro h; cases h)
       · intro h; cases h
+  noClash := fun _ _ => rfl
   topo := by decide
   orders := by decide
   modLoads := by
@@ -118,6 +120,38 @@ theorem cache_invariant (W : World) (names : List Name) (files : Name → File) 
     (hh : ∀ o ∈ h, o.keepsContent) (fuel : Nat) :
     Inv W (initState names files).lib (run W fuel h (initState names files)) :=
   run_inv W _ fuel h _ hh (init_inv W names files)
+
+/-- Two imports that cannot be combined are reported: whenever the specification says that re-applying the
+    items of the imports raises (`unchecked_extend`: "Constant … already exists"), `load_theory` does not return
+    normally — after every history, like in a fresh process. -/
+theorem import_clash_reported (W : World) (names : List Name) (files : Name → File) (h : List Op)
+    (hh : ∀ o ∈ h, o.keepsContent) (fuel : Nat) (n : Name) (lim : Limit) (k : Nat)
+    (hs : specLoad W (initState names files).lib k n lim = .error .extend) :
+    (exec W none fuel (.load n lim) (run W fuel h (initState names files))).1 ≠ none := by
+  intro hr
+  have := load_eq_spec_partial W names files h hh fuel n lim hr k (by rw [hs]; intro h; cases h)
+  rw [hs] at this
+  cases this
+
+/-- theories 1 and 2 both declare the constant `c` (items 10 and 20 clash), theory 3 imports both and has item 30 -/
+def clWorld : World :=
+  { parse := fun _ _ => .ok
+    extend := fun i ctx => !((i = 20 && ctx.contains 10) || (i = 10 && ctx.contains 20))
+    lazyOf := fun _ => none
+    body := fun _ => [] }
+
+def clFiles : Name → File := fun n =>
+  if n = 1 then { imports := [], items := [10], mtime := 5 }
+  else if n = 2 then { imports := [], items := [20], mtime := 5 }
+  else { imports := [1, 2], items := [30], mtime := 5 }
+
+example :
+    let s := run clWorld 50 [.load 1 .none none, .load 2 .none none, .load 3 .none none] (initState [1, 2, 3] clFiles)
+    specLoad clWorld s.lib 5 3 .none = .error .extend
+    ∧ (exec clWorld none 50 (.load 3 .none) s).1 = some .extend
+    ∧ (exec clWorld none 50 (.load 3 .none) (initState [1, 2, 3] clFiles)).1 = some .extend
+    ∧ (exec clWorld none 50 (.load 2 .none) s).2.thy = some [20] :=
+  ⟨by rfl, by decide, by decide, by decide⟩
 
 /-- A missing limit is reported: whenever the specification says "limit not found", `load_theory` does
     not return normally (by `load_eq_spec_partial` a normal return would carry the specified theory). -/
@@ -230,6 +264,7 @@ example :
 /-- chain 1 ← 2 ← 3 (3 imports only 2): item 30 of theory 3 parses only when item 10 of theory 1 is visible -/
 def chWorld : World :=
   { parse := fun i ctx => if i = 30 then (if 10 ∈ ctx then .ok else .err) else .ok
+    extend := fun _ _ => true
     lazyOf := fun _ => none
     body := fun _ => [] }
 
@@ -253,6 +288,7 @@ theorem indirect_edit_older_mtime_example :
 
 def siWorld : World :=
   { parse := fun i ctx => if i = 20 then (if 10 ∈ ctx then .ok else .err) else .ok
+    extend := fun _ _ => true
     lazyOf := fun _ => none
     body := fun _ => [] }
 
